@@ -216,6 +216,52 @@ PROPS["C04"] = dict(
 )
 
 
+PROPS["C03"] = dict(
+    technique="Coq proof over a two-party model (client and server handshake automata of both stacks with their running transcripts as chronological logs of the bytes written and accepted, "
+              "arbitrary message generators and contents checks, byte-level reassembly buffer, an adversary that delivers any sequence of records to either endpoint, also after the ChangeCipherSpec): "
+              "per-state invariants on the logs, injectivity of the concatenation of framed messages, mirror-image theorem under the idealised hash / PRF and a no-forgery premise on the Finished values; "
+              "correspondence: a scripted man in the middle between two REAL endpoints made deterministic (seeded Config.Rand and PKI), the untampered handshake captured once per configuration and "
+              "re-derived inside Coq (framing, ServerHello through the C14 decoders, both Finished values through Spec SM3/PRF over the wire transcript), every tampered run predicted by the proved "
+              "model through a byte-level channel simulation (stream) or a record-level trace evaluation (datagram) and judged by the property on the observables; a key-holding puppet peer for altered Finished values",
+    level_text="Theorems, for EVERY schedule of delivered records (any length; altered, dropped, duplicated, reordered, truncated, re-framed, injected) and every choice of message contents and "
+               "contents checks: if both endpoints complete, the server's chronological log of written and accepted handshake messages and ChangeCipherSpec is the mirror image of the client's "
+               "(accepted = byte for byte what the other wrote, in order), both agree on full/resumed and on both Finished values, and the transcript is the one of the untampered handshake "
+               "(the client's real hello, the flight the server generates for that hello, the client's answer): no downgrade; the ServerHello fields the client decodes are the ones the server "
+               "encoded (C14); datagram stack: the same for the ordered selection of delivered records that was not discarded (cookie exchange, other-epoch / replayed records, early "
+               "ChangeCipherSpec, retransmissions), up to the header of the last Finished; the parsing layer (reassembly, type switch, C14 decoders) never panics. "
+               "Correspondence per run of bin/check: ~4,300 (quick) / ~28,000 (thorough: every byte position x 3 masks of a full and a resumed handshake per stack, every record-level edit, "
+               "4 suites x full/resumed x client authentication x 2 stacks) tampered handshakes between real endpoints; the model predicts which endpoint completes (and, at the record / order "
+               "level, that the refusing endpoint refuses by itself); the property is evaluated on ConnectionState, session caches, recorded Finished values and peer certificates of both endpoints.",
+    level_note="Trusted: Coq kernel + vm_compute; the idealisations (SM3 collision-free, PRF(k,label,.) injective in (label, digest), an accepted verify_data was written by one of the two "
+               "endpoints: the adversary holds no master secret -- authentication of the key exchange is C02/C07); the hand-written model (contents checks are parameters: the theorems hold for "
+               "all of them, so nothing about X.509 / SM2 is assumed); the harness (tk.Wire / tk.VNet middle, recording session caches, puppet peer). "
+               "The no-panic theorem covers the modelled layers only (C03_no_panic_partial); for the contents layer no panic is observed, not proved. "
+               "Stream stack: every byte flip after which both endpoints still complete is in the record-version bytes of the first record of a direction (checked exhaustively in the thorough tier); "
+               "other transparent edits are re-framing, up to 16 warning alerts, duplicates / truncation after the last needed record. Datagram stack: damaged or lost records are discarded or "
+               "fatal and the retransmission is taken; the cookie exchange (cookieless ClientHello, HelloVerifyRequest) is outside the transcript by design (RFC 6347 4.2.1) and edits there are "
+               "accepted only without effect on any view; Finished values of a tampered datagram run may differ from the untampered run's because message_seq fields inside hashed headers depend on "
+               "the retransmission history (they must agree between the endpoints, each being the endpoint's own computation). Observations: the server endpoint records only the first Finished "
+               "(as crypto/tls); the dtlcp client leaves message_seq of its Finished at 0. Liveness defects found on the way (not violations of C03): F30 (ClientHello / HelloVerifyRequest "
+               "ping-pong for ever after one altered bit), F31 (client never completes once the ChangeCipherSpec arrived and the Finished was lost).",
+    code_names={1: "completed-with-different-views", 2: "completed-with-a-view-other-than-the-untampered-handshake",
+                3: "finished-is-not-the-prf-of-the-wire-transcript", 4: "completed-with-peer-certificates-other-than-the-peers",
+                5: "completed-although-the-endpoints-sent-something-else-than-untampered", 6: "completed-although-handed-messages-differ-from-those-sent",
+                7: "view-differs-from-the-serverhello-on-the-wire", 8: "completed-on-a-finished-other-than-the-expected-verify-data", 9: "panic-or-hang",
+                10: "never-completes-although-every-record-it-needs-arrives-intact", "livelock": "livelock",
+                21: "capture-malformed", 22: "model-framing-differs-from-the-implementation",
+                "hang": "hang"},
+    assumptions=["SM3 is collision-free on the transcripts that occur (crypto_ideal: kH injective)",
+                 "PRF(master, label, digest)[0..12) determines (label, digest) whatever the key (crypto_ideal: kF injective in label and digest)",
+                 "no_forgery: a verify_data value an endpoint accepted was put on the wire by one of the two endpoints (the adversary may replay or reflect, it does not hold a master secret)",
+                 "gens_ok: what the endpoints generate is framed; the server's first flight ends with its only ServerHelloDone (full) or is the ServerHello alone (resumption)",
+                 "fin_canonical for the byte-for-byte statement about the last Finished (proved for the tlcp codec; for dtlcp the last Finished's message_seq is covered only by record protection)",
+                 "datagram theorem: handshake records hold whole messages (reassembly is C17)"],
+    trusted=["tk.Wire.Edit / Cut and tk.VNet.Mangle as the man in the middle; tk.SConn.CloseWrite (a failed endpoint half-closes); tk.SeedPKI / tk.NewBlindRand (deterministic PKI and Config.Rand, blind to randutil.MaybeReadByte)",
+             "verif hooks Conn.VerifFinished, SessionState.VerifSessionID / VerifMaster (tlcp, dtlcp); session caches observed through a recording SessionCache (public interface)",
+             "harness/internal/puppet for the altered-Finished family",
+             "Spec/SM3.v, Spec/PRF.v (C04) for the Finished recomputation; Model/Codec*.v (C14) for the ServerHello fields"],
+)
+
 NOT_YET = {}
 
 PROPS["C14"] = dict(
